@@ -834,6 +834,18 @@ func (e *Engine) loopKeys(fc *fnCtx) map[loopKeyRes][]Clause {
 	for key, cls := range fc.contract.KeyedInv {
 		ord, ok := resolveLoopKey(texts, key)
 		if !ok {
+			// the loop header text changed: fall back to the position of the key among the contract's loop keys when the
+			// function still has exactly as many loops as the contract names
+			if len(texts) == len(fc.contract.KeyOrder) {
+				for i, k := range fc.contract.KeyOrder {
+					if k == key {
+						ord, ok = i, true
+						e.note(fmt.Sprintf("loop key %q not found by text; matched by position to loop %d (%s)", key, i, texts[i]))
+					}
+				}
+			}
+		}
+		if !ok {
 			e.specFail(fc.env, fmt.Sprintf("invariant[%s]: no loop with that header in %s (loops: %s)", key, fc.fn.Name(), strings.Join(texts, " | ")))
 		}
 		fc.keyed[loopKeyRes{key, ord}] = cls
@@ -1136,7 +1148,14 @@ func (e *Engine) execInstr(fc *fnCtx, b *ssa.BasicBlock, st *State, ins ssa.Inst
 		e.mapStore(st, m, mv.T, k.T, v.T)
 	case *ssa.Range:
 		xv := e.val(fc, x.X)
-		st.Cells[x] = Val{T: "0", S: "Int"}
+		if m, ok := x.X.Type().Underlying().(*types.Map); ok {
+			// ghost set of keys already visited by this iteration
+			ks := e.sortOf(m.Key())
+			srt := "(Array " + ks + " Bool)"
+			st.Cells[x] = Val{T: e.sc.define("visited", srt, "((as const "+srt+") false)"), S: srt}
+		} else {
+			st.Cells[x] = Val{T: "0", S: "Int"}
+		}
 		fc.regs[x] = xv
 	case *ssa.Next:
 		e.execNext(fc, b, st, x)
